@@ -61,6 +61,14 @@ def parse_case(c):
     check(again == want, "not-a-fixed-point", lambda: "parse_nvra(%r) = %r, expected %r" % (canonical, again, want))
     # the caller's string is not consumed/changed and repeated parsing is stable
     check(must("parse-again", parse_nvra, s) == want, "unstable", "second parse of the same string differs")
+    # related spellings of the same build parsed back to back (other epoch, no epoch, other prefix / suffix): each answer
+    # depends on its own string only
+    for epoch, prefix, rpm in ((None, "", False), (7, "", True), (None, "d/", True), (c["epoch"], c["prefix"], not c["rpm"]), (None, "", False)):
+        other = dict(c, epoch=epoch, prefix=prefix, rpm=rpm, pad=0)
+        got_o = must("parse-related", parse_nvra, assemble(other))
+        want_o = dict(want, epoch=epoch or 0)
+        check(got_o == want_o, "answer-depends-on-earlier-call", lambda: "parse_nvra(%r) = %r after parsing %r" % (assemble(other), got_o, s))
+        got_o["name"] = "poison"
     labels = ["rpm-suffix" if c["rpm"] else "bare", "epoch" if c["epoch"] is not None else "no-epoch"]
     if c["prefix"]:
         labels.append("prefix")
